@@ -81,6 +81,7 @@ def match(prop, tags, env, strict=False):
         cands = [e for e in entries(prop) if _where(e, tags)]
     for e in cands:
         g = dict(_SAFE)
+        g.update(env)                      # as globals too: generator expressions do not see eval() locals
         g["__builtins__"] = {}
         try:
             w = eval(e["_when"], g, env)
